@@ -194,7 +194,9 @@ def _build(rng, n, kind, size, chunk, point, release, sib):
         client += {"resume": [["resume"]], "reset": [["reset"]], "protocol_error": [["feed", b"zz\r\nnot-a-chunk\r\n"]]}[release]
         client += [["settle"]]
         return {"family": "%s.%s.%s" % (kind, point, release), "backends": ["asyncio", "trio"],
-                "config": {"keep_alive_timeout": 5000}, "conn": {}, "apps": {"default": script, "by_tag": by_tag},
+                # (a close the server itself decides on is still owed what it had written: a client that takes none of it is waited for as
+                #  long as an idle connection is kept, here 5 s of virtual time, not for ever)
+                "config": {"keep_alive_timeout": 5000 if release != "protocol_error" else 5}, "conn": {}, "apps": {"default": script, "by_tag": by_tag},
                 "client": client, "truth": truth, "sched": {"seed": rng.randrange(1 << 30)}, "horizon": 100.0}
     fb = FrameBuilder()
     rspec = {"kind": "h2", "credit": "none"}
@@ -270,7 +272,7 @@ def _build(rng, n, kind, size, chunk, point, release, sib):
     if sibs and kind == "h2.pause":
         pass
     return {"family": "%s.%s.%s.sib%d%s" % (kind, point, release, sib, ".unread-upload" if unread else ""), "backends": ["asyncio", "trio"],
-            "config": {"keep_alive_timeout": 5000}, "conn": {},
+            "config": {"keep_alive_timeout": 5000 if release != "goaway" else 5}, "conn": {},
             "apps": {"default": [["recv_until_end"], ["respond", 200, [], b"d"]], "by_tag": by_tag},
             "client": client, "reactor": rspec, "truth": truth,
             "sched": {"seed": rng.randrange(1 << 30)}, "horizon": 100.0}
